@@ -136,8 +136,12 @@ func RunWorker(id, tier string, shard, nshards int, out string) {
 		order[i] = i
 	}
 	sort.SliceStable(order, func(a, b int) bool { return scs[order[a]].Weight > scs[order[b]].Weight })
+	only := os.Getenv("VERIF_ONLY") // debugging aid: restrict a run to the scenarios whose name contains this
 	for _, i := range order {
 		sc := scs[i]
+		if only != "" && !strings.Contains(sc.Name, only) {
+			continue
+		}
 		if sc.Seq != nil {
 			if !mine(i) {
 				continue
@@ -354,6 +358,7 @@ func RunParent(ctx *ev.Ctx) {
 		ctx.Report(class, generalise(a.Violation), detail, rep)
 	}
 	// cache validation: paired scenarios must have equal outcome and terminal-state sets
+	var cacheVal []string
 	for _, name := range order {
 		sc := findScenario(c, name)
 		if sc == nil || sc.Pair == "" {
@@ -367,8 +372,9 @@ func RunParent(ctx *ev.Ctx) {
 			ev.Infra("state-caching validation failed: scenario %s (cached: %d outcomes, %d terminal states) and %s (uncached: %d outcomes, %d terminal states) disagree",
 				name, len(a.Outcomes), len(a.terms), sc.Pair, len(b.Outcomes), len(b.terms))
 		}
-		ctx.Set("cache_validation", fmt.Sprintf("%s vs %s: %d outcomes and %d terminal states identical with and without state caching (%d vs %d executions)",
+		cacheVal = append(cacheVal, fmt.Sprintf("%s vs %s: %d outcomes and %d terminal states identical with and without state caching (%d vs %d executions)",
 			name, sc.Pair, len(a.Outcomes), len(a.terms), a.Execs, b.Execs))
+		ctx.Set("cache_validation", strings.Join(cacheVal, "; "))
 	}
 	for _, name := range order {
 		a := merged[name]
